@@ -322,7 +322,7 @@ func (g *c09Gen) action() bool {
 	var stmts []*ast.Node
 	label := ""
 	g.cur = &st
-	switch k := g.n(0, 21, "action"); {
+	switch k := g.n(0, 23, "action"); {
 	case k <= 1:
 		v := c09Vars[g.n(0, len(c09Vars)-1, "v")]
 		stmts = append(stmts, ast.ExprS(ast.Set(ast.Id(v), g.value(st.Globals))))
@@ -413,6 +413,52 @@ func (g *c09Gen) action() bool {
 			stmts = append(stmts, ast.Print(ast.Str("R"), g.reader(st)))
 			label = "read-only"
 		}
+	case k == 22:
+		// containers derived from another one are independent of it: the sorted copy, a
+		// literal built from variables, the pieces of a split
+		switch g.n(0, 2, "derived") {
+		case 0:
+			if st.Globals["v2"].K == ref.KArr && len(st.Globals["v2"].A.E) > 0 {
+				stmts = append(stmts, ast.ExprS(ast.Set(ast.Id("sv"), ast.Method(ast.Id("v2"), "sort"))),
+					ast.ExprS(ast.Set(ast.Idx(ast.Id("sv"), ast.Num("0")), ast.Str("changed-in-sorted-copy"))),
+					ast.ExprS(ast.Post("++", ast.Idx(ast.Id("sv"), ast.Un("-", ast.Num("1"))))), ast.Print(ast.Str("SV"), ast.Id("sv")))
+				label = "sort-then-store"
+			}
+		case 1:
+			stmts = append(stmts, ast.ExprS(ast.Set(ast.Id("lit"), ast.Arr(ast.Id("v0"), ast.Id("v1"), ast.Obj(ast.KV("k", ast.Id("v0")))))),
+				ast.ExprS(ast.Set(ast.Idx(ast.Id("lit"), ast.Num("0")), ast.Str("changed-in-literal"))),
+				ast.ExprS(ast.Post("++", ast.Mem(ast.Idx(ast.Id("lit"), ast.Num("2")), "k"))), ast.Print(ast.Str("LIT"), ast.Id("lit")))
+			label = "literal-then-store"
+		default:
+			stmts = append(stmts, ast.ExprS(ast.Set(ast.Id("parts"), ast.Method(ast.Str("a,b,c"), "split", ast.Str(",")))),
+				ast.ExprS(ast.Set(ast.Idx(ast.Id("parts"), ast.Num("1")), ast.Id("v0"))), ast.Print(ast.Str("PARTS"), ast.Id("parts"), ast.Method(ast.Str("a,b,c"), "split", ast.Str(","))))
+			label = "split-then-store"
+		}
+		if label == "" {
+			stmts = append(stmts, ast.Print(ast.Str("R"), g.reader(st)))
+			label = "read-only"
+		}
+	case k == 23:
+		// chained (right-associative) assignments, plain and compound
+		a1 := c09Vars[g.n(0, 1, "ch1")]
+		op1 := rapid.SampledFrom([]string{"=", "+=", "-=", "*="}).Draw(g.t, "chop1")
+		op2 := rapid.SampledFrom([]string{"=", "+=", "-=", "*="}).Draw(g.t, "chop2")
+		tgt2 := g.target(st, 0)
+		// the inner target must not be rooted in the outer one: whether `x += x = 1` reads
+		// x before or after the inner store is not part of the property
+		root := tgt2
+		for root.K != "id" && len(root.C) > 0 {
+			root = root.C[0]
+		}
+		if root.K == "id" && string(root.S) == a1 {
+			if a1 == "v0" {
+				a1 = "v1"
+			} else {
+				a1 = "v0"
+			}
+		}
+		stmts = append(stmts, ast.ExprS(ast.Asg(op1, ast.Id(a1), ast.Asg(op2, tgt2, ast.Num(fmt.Sprint(g.n(1, 4, "chv")))))))
+		label = "chained-assignment"
 	case k == 21:
 		// a copy of a scalar read from a container, then changed
 		stmts = append(stmts, ast.ExprS(ast.Set(ast.Id("cp"), g.chain(ast.Id("v2"), st.Globals["v2"], true, 1))), ast.ExprS(ast.Post("++", ast.Id("cp"))), ast.Print(ast.Str("CP"), ast.Id("cp")))
